@@ -47,17 +47,17 @@ def heap_sources(loops_up=None, loops_down=None):
         S("pop", r"void\s+pop\s*\(\s*\)"),
         S("remove", r"void\s+remove\s*\(\s*Element \*element\s*\)"),
         S("insert", r"Element \*insert\s*\(\s*const _T &data\s*\)"),
-        S("insert_list", r"void\s+insert\s*\(\s*const std::vector<_T> &list\s*\)", extra=[(r"list\.size\(\)", "list_size", 1)]),
+        S("insert_list", r"void\s+insert\s*\(\s*const std::vector<_T> &list\s*\)", extra=[(r"list\.size\(\)", "list_size", 0)]),
         S("buildFrom", r"void\s+buildFrom\s*\(\s*const std::vector<_T> &list\s*\)",
-          extra=[(r"list\.size\(\)", "list_size", 1), (r"\bclear\(\);", "heap_clear();", 1)]),
+          extra=[(r"list\.size\(\)", "list_size", 0), (r"\bclear\(\);", "heap_clear();", 0)]),
         S("rebuild", r"void\s+rebuild\s*\(\s*\)"),
         S("update", r"void\s+update\s*\(\s*Element \*element\s*\)"),
         S("empty", r"bool\s+empty\s*\(\s*\)\s*const"),
         S("size", r"unsigned int\s+size\s*\(\s*\)\s*const"),
         S("getContent", r"void\s+getContent\s*\(\s*std::vector<_T> &content\s*\)\s*const"),
         S("sort", r"void\s+sort\s*\(\s*std::vector<_T> &list\s*\)",
-          extra=[(r"list\.size\(\)", "(*list_size_p)", 1), (r"list\.clear\(\);", "(*list_size_p) = 0;", 1),
-                 (r"list\.reserve\(n\);", ";", 1), (r"list\.push_back\(([^;]+)\);", r"list[(*list_size_p)++] = \1;", 1)]),
+          extra=[(r"list\.size\(\)", "(*list_size_p)", 0), (r"list\.clear\(\);", "(*list_size_p) = 0;", 0),
+                 (r"list\.reserve\(n\);", ";", 0), (r"list\.push_back\(([^;]+)\);", r"list[(*list_size_p)++] = \1;", 0)]),
     ]
 
 
@@ -113,7 +113,7 @@ UNITS = [
 ]
 
 # ---------------- layer B: unbounded sift proofs (loop contracts, cvc5, one obligation per solver process) ----------------
-IDX_RULE = [(r"\bvector_\[([^\]]+)\]", r"vector_[IDX(\1)]", 3)]
+IDX_RULE = [(r"\bvector_\[([^\]]+)\]", r"vector_[IDX(\1)]", 0)]
 UP_LOOP = """
 __CPROVER_assigns(child, parent, vector_, F_position)
 __CPROVER_loop_invariant(child <= pos && ANC(pos, child) && (child > 0 ==> parent == PAR(child)) && tmp == T && N == __CPROVER_loop_entry(N))
